@@ -12,7 +12,7 @@ except ImportError:
 from .constants import PC_MASK, ADDRESS_SPACE_SIZE, INTERNAL_MEMORY_START
 
 from .instr.opcode_table import OPCODES
-from .instr.opcodes import IMEMRegisters
+from .instr.opcodes import IMEMRegisters, InvalidInstruction
 from .instr import (
     decode,
     Instruction,
@@ -458,7 +458,11 @@ class Emulator:
             decoder = CachedFetchDecoder(fecher, ADDRESS_SPACE_SIZE)
         else:
             decoder = FetchDecoder(fecher, ADDRESS_SPACE_SIZE)
-        instr = decode(decoder, address, OPCODES)  # type: ignore
+        try:
+            instr = decode(decoder, address, OPCODES)  # type: ignore
+        except (AssertionError, InvalidInstruction):
+            # Same verdict as the Binary Ninja hooks: not an instruction.
+            instr = None
         if instr is None:
             opcode = self.memory.read_byte(address) & 0xFF
             instr = _FallbackInstruction(opcode)
